@@ -88,6 +88,17 @@ func (c *Ctx) BuildQuery(o *Obligation, produceModels bool) (string, int) {
 		if a.NeedTag != "" && !o.Tags[a.NeedTag] {
 			continue
 		}
+		if o.Top >= 0 && c.topAnc != nil {
+			// path-based slicing: only what was assumed/defined in blocks that can reach the obligation's block
+			anc := c.topAnc[o.Top]
+			if a.HasPred {
+				if a.Pred != o.Top && !anc[a.Pred] {
+					continue
+				}
+			} else if tb := c.topBlockOf(i); tb >= 0 && tb != o.Top && !anc[tb] {
+				continue
+			}
+		}
 		if o.ExpectFail && strings.Contains(a.Text, "(forall ") {
 			// reachability probes must be decidable as sat: quantified hypotheses are dropped (fewer hypotheses only make the probe weaker)
 			continue
